@@ -249,6 +249,11 @@ func (s *Script) evalWithRoot(stack, data, root any) (any, Expr) {
 		data = da
 	default:
 		rv := reflect.ValueOf(td)
+		// A pointer to a slice, array, struct or map is followed, as the
+		// wildcard does (reflectGetWild).
+		if rv.Kind() == reflect.Ptr {
+			rv = rv.Elem()
+		}
 		var da []any
 		switch rv.Kind() {
 		case reflect.Slice, reflect.Array:
